@@ -14,22 +14,16 @@ bvars == <<data, rem, file, final, nw>>
 
 BInit == data = <<>> /\ rem = P /\ file = <<>> /\ final = FALSE /\ nw = 0
 
-\* branch 1 of Block1014.write: len < remaining
+\* Block1014.write: the emitted cells and the new counter are EmitWrite (Blocks.tla), one clause per branch
 WriteFits(w) ==
     /\ Len(w) < rem
-    /\ file' = file \o w
-    /\ rem' = rem - Len(w)
+    /\ file' = file \o EmitWrite(rem, w).out
+    /\ rem' = EmitWrite(rem, w).rem
 
-\* branches 2-4: complete the first block, whole blocks while more than P remain, the remainder
 WriteCompletes(w) ==
     /\ Len(w) >= rem
-    /\ LET first == SubSeq(w, 1, rem) \o Pads(T)
-           rest  == SubSeq(w, rem + 1, Len(w))
-           full  == IF Len(rest) = 0 THEN 0 ELSE (Len(rest) - 1) \div P
-           mid   == FoldLeft(LAMBDA acc, j : acc \o SubSeq(rest, (j - 1) * P + 1, j * P) \o Pads(T), <<>>, Idx(full))
-           last  == SubSeq(rest, full * P + 1, Len(rest))
-       IN  /\ file' = file \o first \o mid \o last
-           /\ rem' = P - Len(last)
+    /\ file' = file \o EmitWrite(rem, w).out
+    /\ rem' = EmitWrite(rem, w).rem
 
 BWrite(w) ==
     /\ ~final
@@ -40,8 +34,8 @@ BWrite(w) ==
 
 BFinalise ==
     /\ ~final
-    /\ file' = file \o Pads(rem + T)
-    /\ rem' = P
+    /\ file' = file \o EmitFinal(rem).out
+    /\ rem' = EmitFinal(rem).rem
     /\ final' = TRUE
     /\ UNCHANGED <<data, nw>>
 
